@@ -137,7 +137,9 @@ def affine_shape(ctx):
         D = T.term(ast.parse(div, mode='eval').body)
         Dl = T.substitute(D, ('name', 'samples'), ('call', ('name', 'list'), (('name', 'samples'),), ()))
         mains = [(l, v) for l, v in rets2 if v[0] == 'call' and T.show(v[1]) == 'impose_mean']
-        ok_ = bool(mains) and all(any(lit[0] == 'T' and lit[1] in (D, Dl) for lit in l if len(lit) == 2) for l, v in mains)
+        def _plits(l):
+            return [(lit[1], lit[0] == 'T') for lit in l if len(lit) == 2 and lit[0] in ('T', 'F')]
+        ok_ = bool(mains) and all(decided(D, _plits(l)) is True or decided(Dl, _plits(l)) is True for l, v in mains)
         ctx.check(ok_, name + '#degenerate', 'zero %s handled before dividing' % div.split('(')[0],
                   '%s divides by a possibly zero %s' % (name, div), g, g.node)
         # the other returns: the samples are handed back unchanged only where they already have the target (the statistic is
@@ -147,12 +149,9 @@ def affine_shape(ctx):
         for l, v in rets2:
             if (l, v) in mains:
                 continue
-            known = {}
-            for lit in l:
-                if len(lit) == 2 and lit[0] in ('T', 'F'):
-                    known[lit[1]] = lit[0] == 'T'
-            zero_stat = known.get(D) is False or known.get(Dl) is False
-            zero_tgt = known.get(tgt) is False
+            plits = [(lit[1], lit[0] == 'T') for lit in l if len(lit) == 2 and lit[0] in ('T', 'F')]
+            zero_stat = decided(D, plits) is False or decided(Dl, plits) is False
+            zero_tgt = decided(tgt, plits) is False
             same = v in (('name', 'samples'), SL) or (v[0] == 'listcomp' and len(v[2]) == 1 and v[2][0][1] in (('name', 'samples'), SL) and not v[2][0][2]
                                                        and v[1] in ((v[2][0][0],), (('call', ('name', 'float'), (v[2][0][0],), ()),)))
             isnan = 'nan' in T.show(v)
